@@ -33,3 +33,17 @@ Theorem C02_adjacency_needed_refuted :
   op_ok (run false (firstn 6 h_nonadj)) (Compact [[1;3]]) = false /\
   Corr_eq (read_series (run false h_nonadj) 0) (sel 0 (lww_table (writes_of h_nonadj))) = false.
 Proof. vm_compute. split; reflexivity. Qed.
+
+(* Today's merge-self (`merge_self_m 1`: per series the member files are folded in the order of their minimum time,
+   as MergeSelf.Merge does through ChunkIterators) does NOT satisfy the property: a newer out-of-order file that starts
+   earlier than an older one loses to it. Finding C02-mergeself-mintime-order. *)
+Definition h_ms : list op :=
+  [ Write [r 0 5 [(0,1)]]; Flush false 1 101; Write [r 0 3 [(0,1);(1,1)]]; Flush false 102 2;
+    Write [r 0 2 [(0,9)]; r 0 3 [(0,2)]]; Flush false 103 3; MergeSelf [2;3] 2 ].
+Theorem C02_mergeself_current_refuted :
+  exists h s, Corr_eq (read_series (run2 false 1 h) s) (sel s (lww_table (writes_of h))) = false.
+Proof. exists h_ms, 0. vm_compute. reflexivity. Qed.
+Print Assumptions C02_mergeself_current_refuted.
+Example C02_mergeself_repaired_witness_ok :
+  Corr_eq (read_series (run2 false 0 h_ms) 0) (sel 0 (lww_table (writes_of h_ms))) = true.
+Proof. vm_compute. reflexivity. Qed.
